@@ -86,7 +86,21 @@ def resp_s(op, v):
                                   "reason": st.sampled_from(W.reasons_for(v)),
                                   "message": st.one_of(st.none(), msg_s, msg_s),
                                   "echo": st.sampled_from([True, True, True, False])})
-    return st.one_of(ok, ok, fail, fail)
+    # optional response header fields the version defines and the library knows (Server Correlation
+    # Value: KMIP 1.4; Server Hashed Password: 2.0): carried by one response in four
+    opt = {}
+    if tuple(v) >= (1, 4):
+        opt["scv"] = st.text(alphabet=ASCII, min_size=1, max_size=20)
+    if tuple(v) >= (2, 0):
+        opt["shp"] = st.binary(min_size=1, max_size=32).map(lambda b: b.hex())
+    if not opt:
+        return st.one_of(ok, ok, fail, fail)
+    hdr = st.one_of(st.just({}), st.just({}), st.just({}), st.fixed_dictionaries({}, optional=opt))
+
+    def with_hdr(pair):
+        r, h = pair
+        return dict(r, hdr=h) if h else r
+    return st.tuples(st.one_of(ok, ok, fail, fail), hdr).map(with_hdr)
 
 
 _FAULTS = {
